@@ -7,7 +7,7 @@
 cd "$(dirname "$0")/.."
 list=("$@")
 if [ ${#list[@]} -eq 0 ]; then
-	for d in seeded/C*/m*; do list+=("${d#seeded/}"); done
+	for d in seeded/C*/*/; do d=${d%/}; list+=("${d#seeded/}"); done
 fi
 run1() {
 	x=$1; id=${x%%/*}
